@@ -33,7 +33,7 @@ func runC08(c *core.Ctx, r *core.Reporter) {
 	c08register(c, r)
 	c08visible(c, r)
 	c08canon(c, r)
-	c08refresh(c, r)
+	c08refresh(c, r, "C08.refresh")
 }
 
 // c08late: Package.DefLambda copies the fields of the lambda it is given into the lambda already
